@@ -1066,7 +1066,14 @@ class HTTPResponse(BaseHTTPResponse):
             If True, will attempt to decode the body based on the
             'content-encoding' header.
         """
-        if self.chunked and self.supports_chunked_reads():
+        if (
+            self.chunked
+            and self.supports_chunked_reads()
+            and self._fp_bytes_read == 0
+            and len(self._decoded_buffer) == 0
+        ):
+            # read_chunked() parses the chunks itself, which only works when
+            # read() has not already consumed part of the body through http.client.
             yield from self.read_chunked(amt, decode_content=decode_content)
         else:
             while not is_fp_closed(self._fp) or len(self._decoded_buffer) > 0:
